@@ -69,9 +69,19 @@ func FrameOf(t *rapid.T, v primitive.ProtocolVersion, kind Kind, msg message.Mes
 			f.SetWarnings(w)
 			fc.Optional++
 		}
-	} else if rapid.IntRange(0, 3).Draw(t, "requestTracing") == 0 {
-		f.RequestTracingId(true)
-		fc.Optional++
+	} else {
+		switch rapid.IntRange(0, 7).Draw(t, "requestTracing") {
+		case 0, 1:
+			f.RequestTracingId(true)
+			fc.Optional++
+		case 2:
+			// "The tracing id. Only valid for response frames, ignored otherwise": a request carrying one must be
+			// encoded exactly as if it had none
+			f.SetTracingId(UUID(t, "ignoredTracingId"))
+			fc.Optional++
+		case 3:
+			f.Body.TracingId = UUID(t, "ignoredTracingId")
+		}
 	}
 	if (v == primitive.ProtocolVersion5 || IsDse(v)) && rapid.IntRange(0, 15).Draw(t, "useBeta") == 0 {
 		f.Header.Flags = f.Header.Flags.Add(primitive.HeaderFlagUseBeta)
